@@ -20,6 +20,53 @@ def stub_setter(name):
     return h
 
 
+def delegate_stubs(ctx, public, name):
+    """When a public setter merely forwards to a private implementation (`return self._threshold_at_fpr(self.neg, fpr, method)`), callers inside
+    the class may use that implementation directly (to convert the scores once): it is the same setter.  Returns {qualname: stub} for it."""
+    import ast
+    try:
+        fi = ctx.db.function(SCORES + "." + public)
+    except Exception:  # noqa: BLE001
+        return {}
+    params = [a.arg for a in fi.node.args.args if a.arg != "self"]
+    if not params:
+        return {}
+    ratio = params[0]
+    rets = [n for n in ast.walk(fi.node) if isinstance(n, ast.Return) and isinstance(n.value, ast.Call)]
+    out = {}
+    for r in rets:
+        c = r.value
+        if not (isinstance(c.func, ast.Attribute) and isinstance(c.func.value, ast.Name) and c.func.value.id == "self" and c.func.attr.startswith("_")):
+            continue
+        try:
+            d = ctx.db.function(SCORES + "." + c.func.attr)
+        except Exception:  # noqa: BLE001
+            continue
+        dparams = [a.arg for a in d.node.args.args if a.arg != "self"]
+        target, pop = None, None
+        for i, a in enumerate(c.args):
+            if isinstance(a, ast.Name) and a.id == ratio and i < len(dparams):
+                target = dparams[i]
+            if isinstance(a, ast.Attribute) and isinstance(a.value, ast.Name) and a.value.id == "self" and a.attr in ("pos", "neg") and i < len(dparams):
+                pop = (dparams[i], a.attr)
+        for k in c.keywords:
+            if isinstance(k.value, ast.Name) and k.value.id == ratio:
+                target = k.arg
+        # only a pure delegation counts: the ratio is passed through unchanged and the callee is not the shared inversion helper
+        if target is not None and d.qualname not in (SCORES + "._threshold_at_ratio", SCORES + "._invert_increasing_function"):
+            def stub(ev, fi_, bound, t=target, pop=pop):
+                if pop is not None:
+                    # the implementation must be handed the class the public setter hands it (as given or converted to float)
+                    from ..libmodel import strip_fresh
+                    got = strip_fresh(bound.get(pop[0]))
+                    want = strip_fresh(bound["self"].attrs.get(pop[1])) if hasattr(bound.get("self"), "attrs") else None
+                    if want is None or got != want:
+                        return App(name + "_ON_OTHER_SCORES", (bound[t],))
+                return App(name, (bound[t],))
+            out[d.qualname] = stub
+    return out
+
+
 X = Sym("x", ("param_scalar", "float", "notnone"))
 
 
@@ -34,6 +81,10 @@ def explore_eer(ctx, chk, sc, ec, easy):
     ev = ctx.ev
     ev.stubs[SCORES + ".threshold_at_fpr"] = stub_setter("TFPR")
     ev.stubs[SCORES + ".threshold_at_fnr"] = stub_setter("TFNR")
+    extra = {}
+    extra.update(delegate_stubs(ctx, "threshold_at_fpr", "TFPR"))
+    extra.update(delegate_stubs(ctx, "threshold_at_fnr", "TFNR"))
+    ev.stubs.update(extra)
     ev.stubs[ROOTQ] = stubroot
     if easy:
         ev.assume = [compare(">", EP, Const(0)), compare(">", EN, Const(0))]
@@ -44,7 +95,7 @@ def explore_eer(ctx, chk, sc, ec, easy):
         outs = ctx.explore(lambda: ev.call(ctx.method(ctx.scores_obj(sc, ec, ep=ep, en=en), "eer"), [], {}), chk)
     finally:
         ev.assume = []
-        for k in (SCORES + ".threshold_at_fpr", SCORES + ".threshold_at_fnr", ROOTQ):
+        for k in [SCORES + ".threshold_at_fpr", SCORES + ".threshold_at_fnr", ROOTQ] + list(extra):
             ev.stubs.pop(k, None)
     return outs, fcalls
 
